@@ -17,6 +17,8 @@ pub enum Fault {
     CorruptPayload(usize),
     Transport(usize, Codec),
     Reverse,
+    /// an unfilled slot (identifier 0, payload empty or all zero) inserted at this position, the other shares untouched
+    Placeholder(usize, bool),
 }
 
 #[derive(Copy, Clone, Debug, PartialEq, Eq, Hash, Serialize, Deserialize)]
@@ -206,7 +208,11 @@ impl<C: Suite> Model for M08<C> {
                 for c in [Codec::Bytes, Codec::Bare, Codec::Json] {
                     a.push(Act::Fault(Fault::Transport(p, c)));
                 }
+                a.push(Act::Fault(Fault::Placeholder(p, false)));
+                a.push(Act::Fault(Fault::Placeholder(p, true)));
             }
+            a.push(Act::Fault(Fault::Placeholder(seq.len(), false)));
+            a.push(Act::Fault(Fault::Placeholder(seq.len(), true)));
             if seq.len() >= 2 {
                 a.push(Act::Fault(Fault::Reverse));
             }
@@ -359,6 +365,24 @@ impl<C: Suite> Model for M08<C> {
                                 }
                             }
                             same_as_plain = true;
+                        }
+                        Fault::Placeholder(p, full) => {
+                            use blsful::vsss_rs::Share;
+                            let len = |n: usize| if full { n } else { 0 };
+                            let sg_len = Vec::<u8>::from(&sgs[0]).len() - 2;
+                            let pk_len = Vec::<u8>::from(&pks[0]).len() - 1;
+                            sks.insert(p, SecretKeyShare(<C as Pairing>::SecretKeyShare::empty_share_with_capacity(len(32))));
+                            pks.insert(p, PublicKeyShare(<C as Pairing>::PublicKeyShare::empty_share_with_capacity(len(pk_len))));
+                            let raw = <C as Pairing>::SignatureShare::empty_share_with_capacity(len(sg_len));
+                            sgs.insert(
+                                p,
+                                match it.s {
+                                    Scheme::Basic => SignatureShare::Basic(raw),
+                                    Scheme::Aug => SignatureShare::MessageAugmentation(raw),
+                                    Scheme::Pop => SignatureShare::ProofOfPossession(raw),
+                                },
+                            );
+                            fault_expect_err = true;
                         }
                         Fault::Reverse => {
                             sks.reverse();
